@@ -33,8 +33,8 @@ ASSUMPTIONS = [
     "the snapshot of vlib.snapshot lists exactly the documented compared fields (all attributes, containment, payloads, entry points, expressions with attributes, edges with labels, IR version, AuxData key sets)",
 ]
 REQUIRED_TAGS = {
-    "quick": ["pert:block.kind", "pert:module.swap-order", "pert:aux.value", "pert:aux.key-rename", "pert:ir.version", "pert:edge.label", "pert:expr.attr", "pert:node.uuid", "expected:differs", "expected:equal"],
-    "thorough": ["pert:block.kind", "pert:module.swap-order", "pert:aux.value", "pert:aux.key-rename", "pert:ir.version", "pert:edge.label", "pert:expr.attr", "pert:node.uuid", "expected:differs", "expected:equal"],
+    "quick": ["noise-history", "pert:block.kind", "pert:module.swap-order", "pert:aux.value", "pert:aux.key-rename", "pert:ir.version", "pert:edge.label", "pert:expr.attr", "pert:node.uuid", "expected:differs", "expected:equal"],
+    "thorough": ["noise-history", "pert:block.kind", "pert:module.swap-order", "pert:aux.value", "pert:aux.key-rename", "pert:ir.version", "pert:edge.label", "pert:expr.attr", "pert:node.uuid", "expected:differs", "expected:equal"],
 }
 
 
@@ -443,6 +443,56 @@ def subnode_checks(g, res, x, dx, y, dy, what, expect_equal_nodes):
         res.fail("C18:cfg-false-on-equal", what)
 
 
+def noise(g, ir, ks):
+    """a history with no net effect on one side: things are added and removed
+    again (deep_eq is about current content, not about how it came to be)"""
+    import uuid
+
+    for n, k in enumerate(ks):
+        kind = k % 6
+        u = uuid.UUID(int=(0x9015E << 96) | (n << 8) | (k & 0xFF))
+        nodes = list(ir.cfg_nodes)
+        mods = list(ir.modules)
+        if kind == 0 and nodes:
+            # an edge between arbitrary CFG nodes with a label nothing else uses
+            a, b = nodes[k % len(nodes)], nodes[(k // 7) % len(nodes)]
+            lab = g.Edge.Label(g.Edge.Type.Sysret, bool(k % 2), bool(k % 3))
+            e = g.Edge(a, b, lab)
+            if e not in ir.cfg:
+                ir.cfg.add(e)
+                ir.cfg.discard(e)
+        elif kind == 1:
+            p = g.ProxyBlock(uuid=u)
+            if mods:
+                mods[k % len(mods)].proxies.add(p)
+                e = g.Edge(p, p, None)
+                ir.cfg.add(e)
+                ir.cfg.remove(e)
+                p.module = None
+        elif kind == 2 and mods:
+            m = mods[k % len(mods)]
+            s = g.Symbol("noise", uuid=u, module=m)
+            m.symbols.discard(s)
+            sec = g.Section(name="noise", uuid=uuid.UUID(int=u.int + 1), module=m)
+            sec.module = None
+        elif kind == 3:
+            holder = ir if not mods or k % 2 else mods[k % len(mods)]
+            holder.aux_data["__noise__"] = g.AuxData(1, "uint8_t")
+            del holder.aux_data["__noise__"]
+        elif kind == 4:
+            m = g.Module(name="noise", uuid=u)
+            ir.modules.append(m)
+            ir.modules.remove(m)
+        elif kind == 5:
+            bis = list(ir.byte_intervals)
+            if bis:
+                bi = bis[k % len(bis)]
+                b = g.DataBlock(uuid=u, size=1, byte_interval=bi)
+                bi.blocks.discard(b)
+                bi.symbolic_expressions[1 << 60] = g.SymAddrConst(0, g.Symbol("x"))
+                del bi.symbolic_expressions[1 << 60]
+
+
 def run_case(case):
     g = _gt()
     res = pbt.CaseResult()
@@ -463,6 +513,15 @@ def run_case(case):
     except Exception as e:
         res.fail(pbt.exception_bucket("C18:build", e), repr(e))
         return res
+    if case.get("noise"):
+        res.tag("noise-history")
+        try:
+            noise(g, A, case["noise"])
+        except pbt.CaseTimeout:
+            raise
+        except Exception as e:
+            res.fail(pbt.exception_bucket("C18:noise", e), repr(e))
+            return res
     dA, dB0, dL = deep_snapshot(g, A), deep_snapshot(g, B0), deep_snapshot(g, L)
     pair_check(g, res, A, dA, A, dA, "A vs A")
     pair_check(g, res, A, dA, B0, dB0, "A vs independently built copy")
@@ -545,7 +604,13 @@ def strategy():
     pert = st.fixed_dictionaries(
         {"p": st.sampled_from(names), "n": st.integers(0, 30), "k": st.integers(0, 1000), "route": st.booleans()}
     )
-    return st.fixed_dictionaries({"spec": specmod.specs(max_aux_depth=1), "perts": st.lists(pert, min_size=1, max_size=6)})
+    return st.fixed_dictionaries(
+        {
+            "spec": specmod.specs(max_aux_depth=1),
+            "perts": st.lists(pert, min_size=1, max_size=6),
+            "noise": st.one_of(st.just([]), st.lists(st.integers(0, 500), min_size=1, max_size=5)),
+        }
+    )
 
 
 def run_job(job):
